@@ -6,6 +6,7 @@
   owners) and the operation list are unbounded.
 -/
 import LiteFSVerif.Proofs.RWMutex
+import LiteFSVerif.Proofs.GoCtx
 
 namespace LiteFSVerif.C12
 open LiteFSVerif LiteFSVerif.RWMutex
@@ -213,6 +214,22 @@ theorem C12_blocking_facts :
     Gen.RWMutex.blockingCalls_RLock = ["TryRLock", "TryRLock"] ∧
     Gen.RWMutex.wrapperCalls_TryLock = 1 ∧ Gen.RWMutex.wrapperCalls_TryRLock = 1 ∧
     Gen.RWMutex.wrapperCalls_Unlock = 1 := by decide
+
+/-- "... or their context ends": when the wait ends because the context is done, what `Lock` /
+    `RLock` return (`context.Cause(ctx)`, Model/GoCtx.lean) is a non-nil error — for every standard
+    cancelable context and for LiteFS's primary-scoped context (after fix 55d1f52; before it the
+    cause was nil while the request's context was alive, `C07_old_primary_ctx_nil_cause`), in
+    every world a script of constructions, cancellations and lease losses can reach.  The `goctx`
+    suite compares the model with the real contexts and the real `RWMutexGuard.Lock`. -/
+theorem C12_blocking_context_end_is_an_error (cs : List GoCtx.Cmd) (w : GoCtx.World)
+    (hr : GoCtx.run {} cs = some w) (i : Nat) (k : GoCtx.Kind) (p : Option Nat)
+    (hn : w.nodes[i]? = some (GoCtx.Node.mk k p)) (hk : k ≠ .primaryOld) (hd : w.done i = true) :
+    (GoCtx.lockWaitError w i).isSome = true := by
+  obtain ⟨hwf, hs⟩ := GoCtx.run_wf_settled cs {} w GoCtx.wf_empty GoCtx.settled_empty hr
+  cases k with
+  | cancel => exact GoCtx.cancel_done_has_cause w i p hn hd
+  | primaryOld => exact absurd rfl hk
+  | primary inner => exact GoCtx.fixed_primary_done_has_cause w i inner p hwf hs hn hd
 
 /-! ### non-vacuity: a concrete reachable state with both readers and an upgrade refusal -/
 example :
